@@ -661,3 +661,687 @@ Proof.
   do 4 f_equal.
   apply flat_map_ext_in. intros b Hb. unfold ballot_line. now rewrite mult_of_retable.
 Qed.
+
+(* ================================================================================================ *)
+(* D.1 the written file as a list of lines                                                          *)
+(* ================================================================================================ *)
+Definition count_lines (i : cinst) : list text :=
+  [ lit "# NUMBER ALTERNATIVES:" ++ 32%N :: show_N (num_alternatives (c_meta i));
+    lit "# NUMBER VOTERS:" ++ 32%N :: show_N (num_voters (c_meta i));
+    lit "# NUMBER UNIQUE PREFERENCES:" ++ 32%N :: show_N (c_num_unique i);
+    lit "# NUMBER CATEGORIES:" ++ 32%N :: show_N (c_num_categories i) ].
+Definition cat_name_lines (d : list (N * text)) : list text :=
+  map (fun p => name_line cat_name_prefix (fst p) (snd p)) d.
+Definition ballot_text (mu : list (ballot * N)) (b : ballot) : text :=
+  show_N (mult_of mu b) ++ lit ": " ++ strip_chars (lit ", ") (pref_str b).
+
+Lemma unlines_app a b : unlines (a ++ b) = unlines a ++ unlines b.
+Proof. apply flat_map_app. Qed.
+
+Lemma write_counts_lines i : write_counts i = unlines (count_lines i).
+Proof.
+  unfold write_counts, unlines, count_lines. cbn [flat_map lit].
+  repeat (rewrite <- ?app_assoc; cbn [app]). reflexivity.
+Qed.
+
+Lemma write_cat_names_lines d : write_cat_names d = unlines (cat_name_lines d).
+Proof.
+  unfold write_cat_names, unlines, cat_name_lines. induction d as [|[a nm] r IH]; [reflexivity|].
+  cbn [flat_map map fst snd]. rewrite IH. f_equal.
+  unfold name_line, name_key, cat_name_prefix. cbn [lit]. repeat (rewrite <- ?app_assoc; cbn [app]). reflexivity.
+Qed.
+
+Lemma ballot_line_text mu b : ballot_line mu b = ballot_text mu b ++ nl.
+Proof. unfold ballot_line, ballot_text. now rewrite <- !app_assoc. Qed.
+
+Lemma write_ballots_lines mu l : flat_map (ballot_line mu) l = unlines (map (ballot_text mu) l).
+Proof.
+  unfold unlines. induction l as [|b r IH]; [reflexivity|]. cbn [flat_map map].
+  now rewrite IH, ballot_line_text.
+Qed.
+
+Definition header_lines (i : cinst) : list text :=
+  meta_lines (c_meta i) ++ count_lines i ++ cat_name_lines (c_cat_names i) ++
+  alt_name_lines (alt_names (c_meta i)).
+
+Lemma cat_write_lines i :
+  cat_write i = unlines (header_lines i ++ map (ballot_text (c_mult i)) (sorted_prefs i)).
+Proof.
+  unfold cat_write, header_lines. rewrite !unlines_app.
+  rewrite write_metadata_lines, write_counts_lines, write_cat_names_lines, write_alt_names_lines,
+    write_ballots_lines. now rewrite <- !app_assoc.
+Qed.
+
+(* ---- no line contains a line boundary ---- *)
+Definition printable (c : N) : bool := (32 <=? c)%N && (c <=? 125)%N.
+
+Lemma printable_no_break s : forallb printable s = true -> no_break s = true.
+Proof.
+  apply forallb_impl. intros c H. unfold printable in H. apply andb_true_iff in H as [A B].
+  apply N.leb_le in A. apply N.leb_le in B. unfold is_linebreak.
+  repeat match goal with
+    | |- context [(?a <=? c)%N] => destruct (N.leb_spec a c); try lia
+    | |- context [(c <=? ?a)%N] => destruct (N.leb_spec c a); try lia
+    | |- context [(c =? ?a)%N] => destruct (N.eqb_spec c a); try lia
+    end; reflexivity.
+Qed.
+
+Lemma digit_printable c : is_digit c = true -> printable c = true.
+Proof.
+  unfold is_digit, printable. intros H. apply andb_true_iff in H as [A B].
+  apply N.leb_le in A. apply N.leb_le in B. apply andb_true_iff. split; apply N.leb_le; lia.
+Qed.
+
+Lemma show_N_printable n : forallb printable (show_N n) = true.
+Proof. eapply forallb_impl; [apply digit_printable|apply show_N_digits]. Qed.
+
+Lemma show_N_no_break n : no_break (show_N n) = true.
+Proof. apply printable_no_break, show_N_printable. Qed.
+
+Lemma no_break_app a b : no_break (a ++ b) = no_break a && no_break b.
+Proof. apply forallb_app. Qed.
+
+Lemma bchar_printable c : bchar c = true -> printable c = true.
+Proof.
+  unfold bchar, is_run. intros H. repeat (apply orb_true_iff in H as [H|H]).
+  - now apply digit_printable.
+  - apply N.eqb_eq in H. now subst.
+  - apply N.eqb_eq in H. now subst.
+  - apply N.eqb_eq in H. now subst.
+Qed.
+
+Lemma remove_sp_forallb (P : N -> bool) s :
+  forallb P (remove_sp s) = true -> forallb (fun c => P c || (c =? 32)%N) s = true.
+Proof.
+  unfold remove_sp. induction s as [|c r IH]; [reflexivity|]. simpl.
+  destruct (N.eqb_spec c 32) as [->|Hne]; simpl.
+  - intros H. rewrite orb_true_r. simpl. now apply IH.
+  - intros H. apply andb_true_iff in H as [Hc Hr]. rewrite Hc. simpl. now apply IH.
+Qed.
+
+Lemma body_printable c b : forallb printable (body c b) = true.
+Proof.
+  assert (H : forallb bchar (remove_sp (body c b)) = true).
+  { rewrite remove_sp_body, forallb_app, cat_str_ns_bchars. apply items_bchars. }
+  apply remove_sp_forallb in H. revert H. apply forallb_impl. intros x Hx.
+  apply orb_true_iff in Hx as [Hx|Hx]; [now apply bchar_printable|].
+  apply N.eqb_eq in Hx. now subst.
+Qed.
+
+Lemma ballot_text_no_break mu c b : no_break (ballot_text mu (c :: b)) = true.
+Proof.
+  unfold ballot_text. rewrite strip_pref_str. apply printable_no_break.
+  rewrite !forallb_app. rewrite show_N_printable, body_printable. reflexivity.
+Qed.
+
+Lemma count_line_no_break K n : forallb printable K = true -> no_break (K ++ 32%N :: show_N n) = true.
+Proof.
+  intros H. apply printable_no_break. rewrite forallb_app, H. cbn [forallb andb].
+  rewrite show_N_printable. reflexivity.
+Qed.
+
+Lemma count_lines_no_break i : forallb no_break (count_lines i) = true.
+Proof.
+  unfold count_lines. cbn [forallb]. rewrite !count_line_no_break by reflexivity. reflexivity.
+Qed.
+
+Lemma name_lines_no_break prefix d :
+  no_break prefix = true -> Forall (fun p => wf_field (snd p)) d ->
+  forallb no_break (map (fun p => name_line prefix (fst p) (snd p)) d) = true.
+Proof.
+  intros Hp. induction 1 as [|[a nm] r [Hv Hb] Hr IH]; [reflexivity|].
+  cbn [map forallb fst snd]. rewrite IH, andb_true_r.
+  unfold name_line, name_key. rewrite !no_break_app. rewrite Hp, show_N_no_break.
+  cbn [snd] in Hb. unfold no_break in *. cbn [forallb]. now rewrite Hb.
+Qed.
+
+(* ================================================================================================ *)
+(* D.2 the header loop                                                                              *)
+(* ================================================================================================ *)
+Definition fold_header (au : bool) (rc : list text) (r : result cinst) (ls : list text) : result cinst :=
+  fold_left (fun r l => rbind r (fun i => header_line au rc i (strip l))) ls r.
+
+Lemma fold_header_err au rc e ls : fold_header au rc (Err e) ls = Err e.
+Proof. induction ls as [|l r IH]; [reflexivity|]. exact IH. Qed.
+
+Lemma fold_header_app au rc r a b :
+  fold_header au rc r (a ++ b) = fold_header au rc (fold_header au rc r a) b.
+Proof. apply fold_left_app. Qed.
+
+Lemma fold_header_ws au rc w ls : forallb is_space w = true -> forall r,
+  fold_header au rc r (map (fun l => l ++ w) ls) = fold_header au rc r ls.
+Proof.
+  intros Hw. unfold fold_header. induction ls as [|l t IH]; intros r; [reflexivity|].
+  cbn [map fold_left]. rewrite IH. rewrite strip_nl_r by exact Hw. reflexivity.
+Qed.
+
+Lemma lstrip_by_snoc f a z : f z = false -> lstrip_by f (a ++ [z]) = lstrip_by f a ++ [z].
+Proof. intros Hz. induction a as [|c a IH]; simpl; [now rewrite Hz|]. destruct (f c); [exact IH|reflexivity]. Qed.
+
+Lemma strip_hash r : startswith hash_prefix (strip (35%N :: r)) = true.
+Proof.
+  unfold strip, strip_by. rewrite lstrip_by_cons_false by reflexivity.
+  unfold rstrip_by. simpl rev. rewrite lstrip_by_snoc by reflexivity. rewrite rev_app_distr. reflexivity.
+Qed.
+
+Definition hash_line (l : text) : Prop := exists r, l = 35%N :: r.
+
+Lemma header_loop_app au rc hs : forall i i' rest, rest <> [] -> Forall hash_line hs ->
+  fold_header au rc (Ok i) hs = Ok i' ->
+  header_loop au rc i (hs ++ rest) = header_loop au rc i' rest.
+Proof.
+  induction hs as [|h hs IH]; intros i i' rest NE F H.
+  - injection H as <-. reflexivity.
+  - inversion F as [|? ? [r ->] F']; subst. cbn [app header_loop]. rewrite strip_hash.
+    unfold fold_header in H. cbn [fold_left rbind] in H. fold (fold_header au rc) in H.
+    destruct (header_line au rc i (strip (35%N :: r))) as [i1|e].
+    + cbn [rbind]. destruct (hs ++ rest) as [|x xs] eqn:E.
+      * apply app_eq_nil in E as [_ E]. contradiction.
+      * rewrite <- E. now apply IH.
+    + unfold fold_header in H. fold (fold_header au rc (Err e) hs) in H. rewrite fold_header_err in H. discriminate.
+Qed.
+
+Lemma header_loop_stop au rc i l rest :
+  startswith hash_prefix (strip l) = false -> header_loop au rc i (l :: rest) = Ok (i, l :: rest).
+Proof. intros H. cbn [header_loop]. now rewrite H. Qed.
+
+(* ---- prefix tests on a literal key followed by anything ---- *)
+Fixpoint differ (p k : text) : bool :=
+  match p, k with
+  | a :: p', b :: k' => if N.eqb a b then differ p' k' else true
+  | _, _ => false
+  end.
+
+Lemma sw_false p : forall k x, differ p k = true -> startswith p (k ++ x) = false.
+Proof.
+  induction p as [|a p IH]; intros [|b k] x H; try discriminate. simpl in *.
+  destruct (N.eqb a b); [now apply IH|reflexivity].
+Qed.
+
+Lemma sw_true p : forall k x, startswith p k = true -> startswith p (k ++ x) = true.
+Proof.
+  induction p as [|a p IH]; intros [|b k] x H; try reflexivity; try discriminate. simpl in *.
+  apply andb_true_iff in H as [H1 H2]. rewrite H1. now apply IH.
+Qed.
+
+Definition P_uniq : text := lit "# NUMBER UNIQUE PREFERENCES".
+Definition P_ncat : text := lit "# NUMBER CATEGORIES".
+Definition P_cname : text := lit "# CATEGORY NAME".
+
+Definition not_cat_line (line : text) : Prop :=
+  startswith P_uniq line = false /\ startswith P_ncat line = false /\ startswith P_cname line = false.
+
+Lemma not_cat_line_key K x :
+  differ P_uniq K = true -> differ P_ncat K = true -> differ P_cname K = true -> not_cat_line (K ++ x).
+Proof. intros A B C. repeat split; now apply sw_false. Qed.
+
+Lemma header_line_meta au rc i line :
+  not_cat_line line -> header_line au rc i line = rmap (set_c_meta i) (parse_metadata au (c_meta i) line).
+Proof.
+  intros (A & B & C). unfold header_line. fold P_uniq P_ncat P_cname. now rewrite A, B, C.
+Qed.
+
+(* a run of lines none of which is a categorical header line is handled by parse_metadata alone *)
+Lemma fold_header_meta au rc i0 ls : Forall (fun l => not_cat_line (strip l)) ls -> forall rm,
+  fold_header au rc (rmap (set_c_meta i0) rm) ls =
+  rmap (set_c_meta i0) (fold_left (fun r l => rbind r (fun m => parse_metadata au m (strip l))) ls rm).
+Proof.
+  induction 1 as [|l ls Hl _ IH]; intros rm; [reflexivity|].
+  unfold fold_header. cbn [fold_left]. fold (fold_header au rc).
+  replace (rbind (rmap (set_c_meta i0) rm) (fun i => header_line au rc i (strip l)))
+    with (rmap (set_c_meta i0) (rbind rm (fun m => parse_metadata au m (strip l)))); [apply IH|].
+  destruct rm as [m|e]; [|reflexivity]. cbn [rmap rbind]. rewrite header_line_meta by exact Hl. reflexivity.
+Qed.
+
+Lemma set_c_meta_self i : set_c_meta i (c_meta i) = i.
+Proof. now destruct i. Qed.
+
+Corollary fold_header_meta_lines au rc i ls : Forall (fun l => not_cat_line (strip l)) ls ->
+  fold_header au rc (Ok i) ls = rmap (set_c_meta i) (parse_meta_lines au (c_meta i) ls).
+Proof.
+  intros H. rewrite <- (set_c_meta_self i) at 1.
+  apply (fold_header_meta au rc i ls H (Ok (c_meta i))).
+Qed.
+
+Lemma kv_not_cat K v :
+  K <> [] -> strip K = K -> wf_value v ->
+  differ P_uniq K = true -> differ P_ncat K = true -> differ P_cname K = true ->
+  not_cat_line (strip (K ++ 32%N :: v)).
+Proof. intros NE SK Hv A B C. rewrite strip_kv by assumption. now apply not_cat_line_key. Qed.
+
+Lemma meta_lines_not_cat m : wf_fields m -> Forall (fun l => not_cat_line (strip l)) (meta_lines m).
+Proof.
+  intros (H1 & H2 & H3 & H4 & H5 & H6 & H7 & H8 & H9). unfold meta_lines.
+  repeat constructor; apply kv_not_cat; try reflexivity; try discriminate;
+    first [apply H1|apply H2|apply H3|apply H4|apply H5|apply H6|apply H7|apply H8|apply H9].
+Qed.
+
+Lemma name_line_not_cat a nm : wf_value nm -> not_cat_line (strip (name_line alt_name_prefix a nm)).
+Proof.
+  intros Hv. rewrite strip_name_line; [|reflexivity|exact Hv]. unfold name_key. rewrite <- !app_assoc.
+  now apply not_cat_line_key.
+Qed.
+
+Lemma alt_name_lines_not_cat d :
+  Forall (fun p => wf_field (snd p)) d -> Forall (fun l => not_cat_line (strip l)) (alt_name_lines d).
+Proof.
+  induction 1 as [|[a nm] r [Hv _] _ IH]; [constructor|]. cbn [alt_name_lines map fst snd].
+  constructor; [now apply name_line_not_cat|exact IH].
+Qed.
+
+(* ================================================================================================ *)
+(* D.3 the categorical header lines                                                                 *)
+(* ================================================================================================ *)
+(* a "#" line that matches none of parse_metadata's prefixes leaves the metadata alone *)
+Lemma parse_metadata_other au m K x :
+  differ (lit "# FILE NAME") K = true -> differ (lit "# TITLE") K = true ->
+  differ (lit "# DESCRIPTION") K = true -> differ (lit "# DATA TYPE") K = true ->
+  differ (lit "# MODIFICATION TYPE") K = true -> differ (lit "# RELATES TO") K = true ->
+  differ (lit "# RELATED FILES") K = true -> differ (lit "# PUBLICATION DATE") K = true ->
+  differ (lit "# MODIFICATION DATE") K = true -> differ (lit "# NUMBER ALTERNATIVES") K = true ->
+  differ (lit "# NUMBER VOTERS") K = true -> differ (lit "# ALTERNATIVE NAME") K = true ->
+  parse_metadata au m (K ++ x) = Ok m.
+Proof.
+  intros. unfold parse_metadata. rewrite !sw_false by assumption. reflexivity.
+Qed.
+
+Definition K_uniq : text := lit "# NUMBER UNIQUE PREFERENCES:".
+Definition K_ncat : text := lit "# NUMBER CATEGORIES:".
+
+Lemma header_line_num_unique au rc i n :
+  header_line au rc i (strip (K_uniq ++ 32%N :: show_N n)) = Ok (set_c_num_unique i n).
+Proof.
+  rewrite strip_kv; [|discriminate|reflexivity|apply strip_show_N]. rewrite spv_show_N.
+  unfold header_line.
+  rewrite (sw_true (lit "# NUMBER UNIQUE PREFERENCES") K_uniq) by reflexivity.
+  change 28 with (List.length K_uniq). unfold drop. rewrite skipn_app_exact.
+  rewrite py_int_sp_show_N. cbn [rmap rbind].
+  rewrite (sw_false (lit "# NUMBER CATEGORIES") K_uniq) by reflexivity.
+  rewrite (sw_false (lit "# CATEGORY NAME") K_uniq) by reflexivity.
+  rewrite parse_metadata_other by reflexivity. cbn [rmap]. now destruct i.
+Qed.
+
+Lemma header_line_num_categories au rc i n :
+  header_line au rc i (strip (K_ncat ++ 32%N :: show_N n)) = Ok (set_c_num_categories i n).
+Proof.
+  rewrite strip_kv; [|discriminate|reflexivity|apply strip_show_N]. rewrite spv_show_N.
+  unfold header_line.
+  rewrite (sw_false (lit "# NUMBER UNIQUE PREFERENCES") K_ncat) by reflexivity. cbn [rbind].
+  rewrite (sw_true (lit "# NUMBER CATEGORIES") K_ncat) by reflexivity.
+  change 20 with (List.length K_ncat). unfold drop. rewrite skipn_app_exact.
+  rewrite py_int_sp_show_N. reflexivity.
+Qed.
+
+Lemma header_line_cat_name au rc i a nm : wf_value nm -> no_break nm = true ->
+  header_line au rc i (strip (name_line cat_name_prefix a nm)) =
+  rmap (fun nm' => set_c_cat_names i (assoc_set N.eqb a nm' (c_cat_names i)))
+       (corrected_name au nm (values (c_cat_names i)) rc).
+Proof.
+  intros Hv Hb. rewrite strip_name_line; [|reflexivity|exact Hv].
+  pose proof (match_name_line cat_name_prefix a nm Hb) as M.
+  unfold header_line.
+  assert (E1 : startswith (lit "# NUMBER UNIQUE PREFERENCES") (name_key cat_name_prefix a ++ spv nm) = false).
+  { unfold name_key. rewrite <- !app_assoc. now apply sw_false. }
+  assert (E2 : startswith (lit "# NUMBER CATEGORIES") (name_key cat_name_prefix a ++ spv nm) = false).
+  { unfold name_key. rewrite <- !app_assoc. now apply sw_false. }
+  assert (E3 : startswith (lit "# CATEGORY NAME") (name_key cat_name_prefix a ++ spv nm) = true).
+  { unfold name_key. rewrite <- !app_assoc. now apply sw_true. }
+  rewrite E1. cbn [rbind]. rewrite E2, E3, M. reflexivity.
+Qed.
+
+(* the two count lines handled by parse_metadata *)
+Definition K_nalt : text := lit "# NUMBER ALTERNATIVES:".
+Definition K_nvot : text := lit "# NUMBER VOTERS:".
+
+Lemma header_line_num_alternatives au rc i n :
+  header_line au rc i (strip (K_nalt ++ 32%N :: show_N n)) = Ok (set_c_meta i (set_num_alternatives (c_meta i) n)).
+Proof.
+  rewrite header_line_meta.
+  - unfold K_nalt. now rewrite parse_line_num_alternatives.
+  - apply kv_not_cat; try reflexivity; try discriminate. apply strip_show_N.
+Qed.
+
+Lemma header_line_num_voters au rc i n :
+  header_line au rc i (strip (K_nvot ++ 32%N :: show_N n)) = Ok (set_c_meta i (set_num_voters (c_meta i) n)).
+Proof.
+  rewrite header_line_meta.
+  - unfold K_nvot. now rewrite parse_line_num_voters.
+  - apply kv_not_cat; try reflexivity; try discriminate. apply strip_show_N.
+Qed.
+
+Lemma fold_header_counts au rc i0 i :
+  fold_header au rc (Ok i0) (count_lines i) =
+  Ok (set_c_num_categories
+        (set_c_num_unique
+           (set_c_meta i0 (set_num_voters (set_num_alternatives (c_meta i0) (num_alternatives (c_meta i)))
+                                          (num_voters (c_meta i))))
+           (c_num_unique i))
+        (c_num_categories i)).
+Proof.
+  unfold fold_header, count_lines. cbn [fold_left rbind].
+  fold K_nalt K_nvot K_uniq K_ncat.
+  rewrite header_line_num_alternatives. cbn [rbind].
+  rewrite header_line_num_voters. cbn [rbind].
+  rewrite header_line_num_unique. cbn [rbind].
+  rewrite header_line_num_categories. reflexivity.
+Qed.
+
+Lemma fold_header_cons au rc r l ls :
+  fold_header au rc r (l :: ls) = fold_header au rc (rbind r (fun i => header_line au rc i (strip l))) ls.
+Proof. reflexivity. Qed.
+
+(* category names, autocorrect off *)
+Lemma fold_header_cat_names rc d : Forall (fun p => wf_field (snd p)) d -> forall i,
+  fold_header false rc (Ok i) (cat_name_lines d) = Ok (set_c_cat_names i (set_all d (c_cat_names i))).
+Proof.
+  induction 1 as [|[a nm] r [Hv Hb] _ IH]; intros i.
+  - cbn. now destruct i.
+  - change (cat_name_lines ((a, nm) :: r)) with (name_line cat_name_prefix a nm :: cat_name_lines r).
+    rewrite fold_header_cons. cbn [rbind]. cbn [snd] in Hv, Hb.
+    rewrite header_line_cat_name by assumption. unfold corrected_name. cbn [andb rmap].
+    rewrite IH. reflexivity.
+Qed.
+
+(* ================================================================================================ *)
+(* D.4 well-formed instances; the header of a written file                                          *)
+(* ================================================================================================ *)
+Record wf_cat (i : cinst) : Prop := mk_wf_cat {
+  wf_some_ballot : c_prefs i <> [];                                       (* at least one ballot *)
+  wf_ncat : (1 <= c_num_categories i)%N;                                  (* 1 or more categories *)
+  wf_len : Forall (fun b => N.of_nat (List.length b) = c_num_categories i) (c_prefs i);
+  wf_mult_pos : Forall (fun p => (1 <= snd p)%N) (c_mult i);              (* multiplicities >= 1 *)
+  wf_keys : map fst (c_mult i) = c_prefs i;                               (* table keys = ballot list *)
+  wf_nodup : NoDup (c_prefs i);
+  wf_meta : wf_fields (c_meta i);                                         (* single-line, no outer whitespace *)
+  wf_dtype : data_type (c_meta i) = lit "cat";
+  wf_resv : reserved (c_meta i) = [];                                     (* no parser state *)
+  wf_alts : wf_names (alt_names (c_meta i));                              (* names as above, may be EMPTY; ids distinct *)
+  wf_cats : wf_names (c_cat_names i)
+}.
+
+Lemma wf_ballots_nonempty i : wf_cat i -> Forall (fun b => b <> []) (c_prefs i).
+Proof.
+  intros W. eapply Forall_impl; [|apply (wf_len i W)]. intros b Hb ->. simpl in Hb.
+  pose proof (wf_ncat i W). lia.
+Qed.
+
+Lemma hash_line_nl l : hash_line l -> hash_line (l ++ nl).
+Proof. intros [r ->]. now exists (r ++ nl). Qed.
+
+Lemma name_lines_hash prefix d : hash_line prefix ->
+  Forall hash_line (map (fun p => name_line prefix (fst p) (snd p)) d).
+Proof.
+  intros [r ->]. apply Forall_forall. intros l Hl. apply in_map_iff in Hl as [[a nm] [<- _]].
+  unfold name_line, name_key. eexists. reflexivity.
+Qed.
+
+Lemma header_lines_hash i : Forall hash_line (header_lines i).
+Proof.
+  unfold header_lines. rewrite !Forall_app. repeat split.
+  - unfold meta_lines. repeat constructor; eexists; reflexivity.
+  - unfold count_lines. repeat constructor; eexists; reflexivity.
+  - apply name_lines_hash. eexists; reflexivity.
+  - apply name_lines_hash. eexists; reflexivity.
+Qed.
+
+Definition start_inst : cinst := cinst0 (meta0 (lit "cat")).
+
+Lemma fold_header_all i : wf_cat i ->
+  fold_header false [] (Ok start_inst) (header_lines i) = Ok (set_c_ballots i [] []).
+Proof.
+  intros W. unfold header_lines. rewrite !fold_header_app.
+  (* the nine metadata lines *)
+  rewrite (fold_header_meta_lines false [] start_inst (meta_lines (c_meta i)))
+    by (apply meta_lines_not_cat, (wf_meta i W)).
+  rewrite metadata_roundtrip by apply (wf_meta i W). cbn [rmap].
+  (* the four count lines *)
+  rewrite fold_header_counts.
+  (* category names *)
+  destruct (wf_cats i W) as [CF CN].
+  rewrite fold_header_cat_names by exact CF.
+  (* alternative names *)
+  destruct (wf_alts i W) as [AF AN].
+  rewrite fold_header_meta_lines by (now apply alt_name_lines_not_cat).
+  rewrite alt_names_roundtrip_fresh; [|split; assumption|reflexivity].
+  cbn [rmap]. f_equal.
+  (* the rebuilt record *)
+  cbn [c_cat_names c_meta c_num_unique c_num_categories c_prefs c_mult set_c_meta set_c_cat_names
+       set_c_num_categories set_c_num_unique set_c_ballots start_inst cinst0].
+  rewrite (set_all_fresh (c_cat_names i) []) by exact CN. cbn [app].
+  pose proof (wf_resv i W) as R.
+  destruct i as [m nu nc cn pr mu]. destruct m. cbn in R. subst. reflexivity.
+Qed.
+
+(* ================================================================================================ *)
+(* D.5 the ballot loop and the whole file                                                           *)
+(* ================================================================================================ *)
+Lemma assoc_set_ballot_fresh b k (M : list (ballot * N)) :
+  ~ In b (map fst M) -> assoc_set ballot_eqb b k M = M ++ [(b, k)].
+Proof.
+  induction M as [|[b' k'] r IH]; intros H; [reflexivity|]. cbn [assoc_set].
+  destruct (ballot_eqb b b') eqn:E.
+  - apply ballot_eqb_eq in E. subst. exfalso. apply H. now left.
+  - cbn [app]. rewrite IH; [reflexivity|]. intros Hin. apply H. now right.
+Qed.
+
+Lemma set_c_ballots_self st : set_c_ballots st (c_prefs st) (c_mult st) = st.
+Proof. now destruct st. Qed.
+
+Lemma ballot_of_line_strip l l' : strip l = strip l' -> ballot_of_line l = ballot_of_line l'.
+Proof. unfold ballot_of_line. now intros ->. Qed.
+
+Lemma ballot_text_ws_read mu w c b : forallb is_space w = true ->
+  ballot_of_line (ballot_text mu (c :: b) ++ w) = Ok (mult_of mu (c :: b), c :: b).
+Proof.
+  intros Hw. rewrite <- ballot_line_read. apply ballot_of_line_strip.
+  rewrite ballot_line_text. rewrite !strip_nl_r; [reflexivity|reflexivity|exact Hw].
+Qed.
+
+Lemma ballot_loop_lines mu w S : forallb is_space w = true -> forall st,
+  Forall (fun b => b <> []) S -> NoDup S -> (forall b, In b S -> ~ In b (map fst (c_mult st))) ->
+  ballot_loop false st (map (fun b => ballot_text mu b ++ w) S)
+  = Ok (set_c_ballots st (c_prefs st ++ S) (c_mult st ++ retable mu S)).
+Proof.
+  intros Hw. induction S as [|b S IH]; intros st NE ND FR.
+  - cbn [map ballot_loop retable]. rewrite !app_nil_r. now rewrite set_c_ballots_self.
+  - inversion NE as [|? ? Hb NE']; subst. inversion ND as [|? ? Hnin ND']; subst.
+    cbn [map ballot_loop].
+    destruct b as [|c b']; [now elim Hb|]. rewrite ballot_text_ws_read by exact Hw. cbn [rbind].
+    unfold add_ballot. rewrite assoc_set_ballot_fresh by (apply FR; now left).
+    rewrite IH; [|exact NE'|exact ND'|].
+    + f_equal. destruct st as [m nu nc cn pr M]. cbn [set_c_ballots c_prefs c_mult c_meta c_num_unique
+        c_num_categories c_cat_names retable map]. now rewrite <- !app_assoc.
+    + intros b2 Hb2. cbn [set_c_ballots c_mult]. rewrite map_app, in_app_iff. intros [Hin|Hin].
+      * apply (FR b2); [now right|exact Hin].
+      * cbn in Hin. destruct Hin as [<-|[]]. contradiction.
+Qed.
+
+Lemma strip_ballot_line mu c b :
+  strip (ballot_line mu (c :: b)) = show_N (mult_of mu (c :: b)) ++ lit ": " ++ body c b.
+Proof.
+  unfold ballot_line. rewrite strip_pref_str.
+  set (m := mult_of mu (c :: b)).
+  replace (show_N m ++ lit ": " ++ body c b ++ nl) with ((show_N m ++ lit ": " ++ body c b) ++ nl)
+    by (now rewrite <- !app_assoc).
+  rewrite strip_nl_r by reflexivity.
+  apply strip_fix_good.
+  - apply starts_good_app. destruct (show_N_starts m) as [z [t1 [E H]]]. exists z, t1. split; [exact E|].
+    apply orb_true_iff in H as [H|H]; [now rewrite H|].
+    exfalso. apply N.eqb_eq in H. subst z. pose proof (show_N_digits m) as D. rewrite E in D. discriminate.
+  - apply ends_good_app, ends_good_app, body_ends.
+Qed.
+
+Lemma ballot_line_not_hash mu c b : startswith hash_prefix (strip (ballot_line mu (c :: b))) = false.
+Proof.
+  rewrite strip_ballot_line. pose proof (show_N_nonempty (mult_of mu (c :: b))) as NE.
+  pose proof (show_N_digits (mult_of mu (c :: b))) as D.
+  destruct (show_N (mult_of mu (c :: b))) as [|z t]; [now elim NE|]. simpl in D.
+  apply andb_true_iff in D as [Dz _].
+  change (startswith hash_prefix ((z :: t) ++ lit ": " ++ body c b)) with (N.eqb 35 z && true).
+  destruct (N.eqb_spec 35 z) as [<-|]; [discriminate|reflexivity].
+Qed.
+
+Lemma ballot_text_not_hash mu w c b : forallb is_space w = true ->
+  startswith hash_prefix (strip (ballot_text mu (c :: b) ++ w)) = false.
+Proof.
+  intros Hw. rewrite strip_nl_r by exact Hw. rewrite <- (strip_nl_r _ nl) by reflexivity.
+  rewrite <- ballot_line_text. apply ballot_line_not_hash.
+Qed.
+
+Definition file_lines (i : cinst) : list text :=
+  header_lines i ++ map (ballot_text (c_mult i)) (sorted_prefs i).
+
+Lemma all_lines_no_break i : wf_cat i -> forallb no_break (file_lines i) = true.
+Proof.
+  intros W. unfold file_lines, header_lines. rewrite !forallb_app.
+  rewrite meta_lines_no_break by apply (wf_meta i W). rewrite count_lines_no_break.
+  destruct (wf_cats i W) as [CF _]. destruct (wf_alts i W) as [AF _].
+  unfold cat_name_lines. rewrite name_lines_no_break by (reflexivity || exact CF).
+  rewrite alt_name_lines_no_break by exact AF. cbn [andb].
+  apply forallb_forall. intros l Hl. apply in_map_iff in Hl as [b [<- Hb]].
+  assert (NE : b <> []).
+  { pose proof (wf_ballots_nonempty i W) as F. rewrite Forall_forall in F. apply F.
+    eapply Permutation_in; [apply Permutation_sym, sorted_prefs_perm|exact Hb]. }
+  destruct b as [|c b']; [now elim NE|]. apply ballot_text_no_break.
+Qed.
+
+(* the header loop on the lines of a written file (each followed by the same whitespace: a newline for readlines,
+   nothing for splitlines): it rebuilds everything but the ballots and stops at the first ballot line *)
+Lemma header_loop_file w i : forallb is_space w = true -> wf_cat i ->
+  header_loop false [] start_inst (map (fun l => l ++ w) (file_lines i))
+  = Ok (set_c_ballots i [] [], map (fun b => ballot_text (c_mult i) b ++ w) (sorted_prefs i)).
+Proof.
+  intros Hw W. unfold file_lines. rewrite map_app, map_map.
+  set (mu := c_mult i). remember (sorted_prefs i) as S eqn:ES.
+  assert (PS : Permutation (c_prefs i) S) by (rewrite ES; apply sorted_prefs_perm).
+  assert (NES : Forall (fun b => b <> []) S).
+  { eapply Permutation_Forall; [exact PS|now apply wf_ballots_nonempty]. }
+  destruct S as [|s S'].
+  { exfalso. apply (wf_some_ballot i W). now apply Permutation_nil, Permutation_sym. }
+  rewrite (header_loop_app false [] _ start_inst (set_c_ballots i [] [])).
+  2:{ discriminate. }
+  2:{ apply Forall_forall. intros l Hl. apply in_map_iff in Hl as [l0 [<- Hl0]].
+      pose proof (header_lines_hash i) as F. rewrite Forall_forall in F. destruct (F l0 Hl0) as [r ->].
+      now exists (r ++ w). }
+  2:{ rewrite fold_header_ws by exact Hw. now apply fold_header_all. }
+  inversion NES as [|? ? Hs _]; subst. destruct s as [|c s']; [now elim Hs|].
+  cbn [map]. now rewrite header_loop_stop by (now apply ballot_text_not_hash).
+Qed.
+
+Theorem roundtrip_lines w i : forallb is_space w = true -> wf_cat i ->
+  cat_parse false false (meta0 (lit "cat")) (map (fun l => l ++ w) (file_lines i)) = Ok (sorted_view i).
+Proof.
+  intros Hw W.
+  unfold cat_parse. change (teqb (data_type (meta0 (lit "cat"))) (lit "cat")) with true. cbv iota.
+  unfold cat_parse_body. fold start_inst. rewrite header_loop_file by assumption. cbn [rbind].
+  assert (PS : Permutation (c_prefs i) (sorted_prefs i)) by apply sorted_prefs_perm.
+  assert (NES : Forall (fun b => b <> []) (sorted_prefs i)).
+  { eapply Permutation_Forall; [exact PS|now apply wf_ballots_nonempty]. }
+  assert (NDS : NoDup (sorted_prefs i)) by (eapply Permutation_NoDup; [exact PS|apply (wf_nodup i W)]).
+  assert (FR : forall b, In b (sorted_prefs i) -> ~ In b (map fst (c_mult (set_c_ballots i [] [])))).
+  { intros b _ []. }
+  rewrite (ballot_loop_lines (c_mult i) w (sorted_prefs i) Hw _ NES NDS FR).
+  reflexivity.
+Qed.
+
+(* header_only=True on the same lines: everything but the ballots (used by C10) *)
+Theorem header_only_lines w i : forallb is_space w = true -> wf_cat i ->
+  cat_parse false true (meta0 (lit "cat")) (map (fun l => l ++ w) (file_lines i)) = Ok (set_c_ballots i [] []).
+Proof.
+  intros Hw W.
+  unfold cat_parse. change (teqb (data_type (meta0 (lit "cat"))) (lit "cat")) with true. cbv iota.
+  unfold cat_parse_body. fold start_inst. now rewrite header_loop_file by assumption.
+Qed.
+
+(* C08_roundtrip: parse_file (readlines) of the written file gives back the instance, ballots in file order *)
+Theorem roundtrip_readlines i : wf_cat i ->
+  cat_parse false false (meta0 (lit "cat")) (readlines (cat_write i)) = Ok (sorted_view i).
+Proof.
+  intros W. rewrite cat_write_lines. fold (file_lines i).
+  rewrite readlines_unlines by (apply forallb_no_nlcr; now apply all_lines_no_break).
+  now apply (roundtrip_lines nl).
+Qed.
+
+(* the same through parse_str (splitlines) *)
+Theorem roundtrip_splitlines i : wf_cat i ->
+  cat_parse false false (meta0 (lit "cat")) (splitlines (cat_write i)) = Ok (sorted_view i).
+Proof.
+  intros W. rewrite cat_write_lines. fold (file_lines i).
+  rewrite splitlines_unlines by (now apply all_lines_no_break).
+  assert (E : map (fun l : text => l ++ []) (file_lines i) = file_lines i).
+  { rewrite <- (map_id (file_lines i)) at 2. apply map_ext. intros l. apply app_nil_r. }
+  rewrite <- E. now apply (roundtrip_lines []).
+Qed.
+
+(* ================================================================================================ *)
+(* E. what sorted_view keeps; statements about the parsed file                                      *)
+(* ================================================================================================ *)
+Lemma mult_of_cons_neq b k r x : x <> b -> mult_of ((b, k) :: r) x = mult_of r x.
+Proof. intros H. unfold mult_of. cbn [assoc_get]. now rewrite ballot_eqb_neq. Qed.
+
+Lemma retable_self mu : NoDup (map fst mu) -> retable mu (map fst mu) = mu.
+Proof.
+  induction mu as [|[b k] r IH]; intros ND; [reflexivity|]. inversion ND as [|? ? Hnin ND']; subst.
+  cbn [map fst retable]. f_equal.
+  - unfold mult_of. cbn [assoc_get]. now rewrite ballot_eqb_refl.
+  - rewrite <- (IH ND') at 2. unfold retable. apply map_ext_in. intros x Hx. f_equal.
+    apply mult_of_cons_neq. intros ->. contradiction.
+Qed.
+
+(* the sorted view holds the same table (as a dict), the same ballots (as a multiset), everything else equal *)
+Theorem sorted_view_same i : wf_cat i ->
+  c_meta (sorted_view i) = c_meta i /\ c_num_unique (sorted_view i) = c_num_unique i /\
+  c_num_categories (sorted_view i) = c_num_categories i /\ c_cat_names (sorted_view i) = c_cat_names i /\
+  Permutation (c_prefs i) (c_prefs (sorted_view i)) /\
+  Permutation (c_mult i) (c_mult (sorted_view i)) /\
+  (forall b, mult_of (c_mult (sorted_view i)) b = mult_of (c_mult i) b).
+Proof.
+  intros W. repeat split; try reflexivity.
+  - apply sorted_prefs_perm.
+  - rewrite sorted_view_mult. rewrite <- (retable_self (c_mult i)) at 1.
+    + unfold retable. apply Permutation_map. rewrite (wf_keys i W). apply sorted_prefs_perm.
+    + rewrite (wf_keys i W). apply (wf_nodup i W).
+  - intros b. rewrite sorted_view_mult.
+    destruct (in_dec (list_eq_dec (list_eq_dec N.eq_dec)) b (sorted_prefs i)) as [Hin|Hnin].
+    + now apply mult_of_retable.
+    + (* not a ballot of the instance: absent from both tables *)
+      assert (A : forall M, ~ In b (map fst M) -> mult_of M b = 0%N).
+      { intros M. unfold mult_of. induction M as [|[b' k'] r IH]; intros H; [reflexivity|]. cbn [assoc_get].
+        rewrite ballot_eqb_neq; [apply IH|]; intros E; apply H; [now right|now left]. }
+      rewrite !A; [reflexivity| |].
+      * rewrite (wf_keys i W). intros Hin. apply Hnin.
+        eapply Permutation_in; [apply sorted_prefs_perm|exact Hin].
+      * unfold retable. rewrite map_map. cbn [fst]. now rewrite map_id.
+Qed.
+
+Lemma sorted_view_non_increasing i : mult_non_increasing (c_mult (sorted_view i)) (c_prefs (sorted_view i)).
+Proof.
+  rewrite sorted_view_mult, sorted_view_prefs. unfold mult_non_increasing.
+  eapply StronglySorted_ext_in; [|apply sorted_prefs_non_increasing].
+  intros x y Hx Hy H. cbv beta in *. now rewrite !mult_of_retable.
+Qed.
+
+(* ================================================================================================ *)
+(* F. a ballot with ZERO categories (outside the quantifier, recorded because the code accepts it)  *)
+(* ================================================================================================ *)
+(* write prints "<mult>: " + newline; the reader strips it to "<mult>:", splits it into the multiplicity and
+   the empty string, and builds the empty tuple: the line is read back as well *)
+Lemma ballot_line_read_zero mu : ballot_of_line (ballot_line mu []) = Ok (mult_of mu [], []).
+Proof.
+  unfold ballot_of_line, ballot_line. set (m := mult_of mu []).
+  change (strip_chars (lit ", ") (pref_str [])) with (@nil N).
+  replace (show_N m ++ lit ": " ++ [] ++ nl) with ((show_N m ++ [58%N]) ++ [32%N; 10%N])
+    by (now rewrite <- app_assoc).
+  rewrite strip_nl_r by reflexivity.
+  assert (S : strip (show_N m ++ [58%N]) = show_N m ++ [58%N]).
+  { unfold strip. rewrite <- (app_nil_r (show_N m ++ [58%N])) at 1. apply strip_by_keep; [| |reflexivity].
+    - destruct (show_N_starts m) as [z [t1 [E H]]]. exists z, (t1 ++ [58%N]). rewrite E. split; [reflexivity|].
+      now apply good_start_not_space.
+    - exists (show_N m), 58%N. split; reflexivity. }
+  rewrite S. rewrite remove_sp_app, remove_sp_show. change (remove_sp [58%N]) with [58%N].
+  rewrite split_on_app. rewrite (split_on_none 58 (show_N m)) by (now apply show_N_lacks).
+  cbn [split_on app]. rewrite py_int_show_N. reflexivity.
+Qed.
+
+Theorem ballot_line_read_any mu b : ballot_of_line (ballot_line mu b) = Ok (mult_of mu b, b).
+Proof. destruct b as [|c b]; [apply ballot_line_read_zero|apply ballot_line_read]. Qed.
